@@ -13,6 +13,7 @@ import (
 	"fmt"
 	"math/big"
 	"math/rand"
+	"os"
 	"sort"
 	"strings"
 	"testing"
@@ -25,6 +26,7 @@ import (
 	cryptocodec "github.com/cosmos/cosmos-sdk/crypto/codec"
 	"github.com/cosmos/cosmos-sdk/crypto/keys/secp256k1"
 	sdk "github.com/cosmos/cosmos-sdk/types"
+	"github.com/cosmos/cosmos-sdk/types/bech32"
 	sdktx "github.com/cosmos/cosmos-sdk/types/tx"
 	authtypes "github.com/cosmos/cosmos-sdk/x/auth/types"
 	vestingtypes "github.com/cosmos/cosmos-sdk/x/auth/vesting/types"
@@ -41,7 +43,9 @@ import (
 
 	"fxverif/harness/hx"
 
+	fxcontract "github.com/functionx/fx-core/v8/contract"
 	fxtypes "github.com/functionx/fx-core/v8/types"
+	migratemodule "github.com/functionx/fx-core/v8/x/migrate"
 	migratetypes "github.com/functionx/fx-core/v8/x/migrate/types"
 )
 
@@ -94,6 +98,61 @@ type world struct {
 	minDep sdkmath.Int
 	gone   map[int]bool // addresses already used in a migration
 	hist   []migRec     // accepted migrations, in order
+	spell  *spelling    // how the next migration spells its target (nil = canonical EIP-55 hex, the CLI's form)
+	junk   int          // ids handed to addresses that are no actor (what HexToAddress makes of a non-hex string)
+}
+
+// a spelling of the target string of MsgMigrateAccount
+type spelling struct {
+	name string
+	str  string
+}
+
+// every spelling class of a 20-byte target: hex (checksummed / lower / upper / without 0x), bech32 (account prefix / another
+// prefix / upper case), and strings that spell nothing (empty, too short, too long)
+func (w *world) spellings(addr sdk.AccAddress) []spelling {
+	canon := common.BytesToAddress(addr).Hex()
+	other, err := bech32.ConvertAndEncode("cosmos", addr)
+	must(err)
+	return []spelling{
+		{"hex-checksum", canon},
+		{"hex-lower", strings.ToLower(canon)},
+		{"hex-upper", "0x" + strings.ToUpper(canon[2:])},
+		{"hex-bare", canon[2:]},
+		{"bech32-account", addr.String()},
+		{"bech32-other-hrp", other},
+		{"bech32-upper", strings.ToUpper(addr.String())},
+		{"empty", ""},
+		{"short", canon[:12]},
+		{"long", canon + "00"},
+	}
+}
+
+// class of a spelling, decided by the dependency functions themselves: 0 = canonical hex (ValidateEthereumAddress accepts),
+// 1 = another hex spelling (IsHexAddress), 2 = bech32 of 20 bytes with the account prefix, 3 = nothing of these;
+// the bytes it spells; and what HexToAddress (total) makes of it
+func (w *world) classify(str string) (cls int, bytesID int, hexID int) {
+	hexAddr := common.HexToAddress(str)
+	hexID = w.idOrJunk(hexAddr.Bytes())
+	switch {
+	case fxcontract.ValidateEthereumAddress(str) == nil:
+		return 0, hexID, hexID
+	case common.IsHexAddress(str):
+		return 1, hexID, hexID
+	}
+	if a, err := sdk.AccAddressFromBech32(str); err == nil && len(a) == common.AddressLength {
+		return 2, w.idOrJunk(a), hexID
+	}
+	return 3, 0, hexID
+}
+
+func (w *world) idOrJunk(b []byte) int {
+	if i, ok := w.idOf[string(b)]; ok {
+		return i
+	}
+	w.junk++
+	w.idOf[string(b)] = 200 + w.junk
+	return 200 + w.junk
 }
 
 func (w *world) time() time.Time { return w.t0.Add(time.Duration(w.now) * time.Second) }
@@ -1265,6 +1324,8 @@ func errKind(res string) string {
 		return "ok"
 	case strings.HasPrefix(res, "panic:"):
 		return "panic"
+	case strings.Contains(res, "invalid to address"):
+		return "err:to"
 	case strings.Contains(res, "same account"):
 		return "err:same"
 	case strings.Contains(res, "signature") || strings.Contains(res, "sig to pub"):
@@ -1475,7 +1536,46 @@ func (w *world) opMigrate() {
 		signer = o.id
 		sig = w.sign(o.eth, fromAddr, to.addr)
 	}
+	if w.rng.Intn(4) == 0 {
+		sp := hx.Pick(w.rng, w.spellings(to.addr))
+		w.spell = &sp
+	}
 	w.migrate(fromID, fromAddr, to, signer, order, sig, mode)
+}
+
+// opGenesisRoundTrip (only with VERIF_C14_GENESIS=1, see fixes/C14-genesis-import.md): the migrate module's state is exported
+// and imported again, as a chain restarted from an exported genesis does; the addresses already used in a migration must
+// still be marked
+func (w *world) opGenesisRoundTrip() {
+	am := migratemodule.NewAppModule(w.s.App.MigrateKeeper)
+	exported := am.ExportGenesis(w.s.Ctx, w.s.App.AppCodec())
+	store := w.s.Ctx.KVStore(w.s.App.GetKey(migratetypes.StoreKey))
+	for _, kv := range hx.RawPrefix(w.s.Ctx, w.s.App.GetKey(migratetypes.StoreKey), nil) {
+		store.Delete(kv[0])
+	}
+	am.InitGenesis(w.s.Ctx, w.s.App.AppCodec(), exported)
+	w.out.Count("genesis-roundtrip")
+	for id := range w.gone {
+		if a := w.byID[id]; a != nil && !w.s.App.MigrateKeeper.HasMigrateRecord(w.s.Ctx, a.addr) {
+			w.out.Violate("genesis: a migration record written by an accepted migration is exported by ExportGenesis but not restored by InitGenesis: the address can take part in a migration again after export/import")
+			return
+		}
+	}
+}
+
+// opUnbondTime: governance changes the staking unbonding time (a real MsgUpdateParams by the gov authority); entries keep
+// the completion time they were created with, so afterwards a later entry may complete before an earlier one
+func (w *world) opUnbondTime(secs int64) {
+	p, err := w.s.App.StakingKeeper.GetParams(w.s.Ctx)
+	must(err)
+	p.UnbondingTime = time.Duration(secs) * time.Second
+	res := w.exec(&stakingtypes.MsgUpdateParams{Authority: authtypes.NewModuleAddress(govtypes.ModuleName).String(), Params: p})
+	if res != "ok" {
+		w.out.Violate("harness: MsgUpdateParams(staking) failed: " + res)
+		return
+	}
+	w.out.Count(fmt.Sprintf("setunbond:%d", secs))
+	w.emit(fmt.Sprintf("setunbond %d", secs), "ok")
 }
 
 func (w *world) migrate(fromID int, fromAddr sdk.AccAddress, to *actor, signer int, order, sig, mode string) string {
@@ -1495,9 +1595,22 @@ func (w *world) migrate(fromID int, fromAddr sdk.AccAddress, to *actor, signer i
 	recsBefore := w.recordSlots(fromAddr, to.addr)
 	lockedBefore := w.s.App.BankKeeper.LockedCoins(w.s.Ctx, fromAddr)
 
-	msg := &migratetypes.MsgMigrateAccount{From: fromAddr.String(), To: common.BytesToAddress(to.addr).String(), Signature: sig}
+	toStr, spellName := common.BytesToAddress(to.addr).String(), "hex-checksum"
+	spelled := w.spell != nil
+	if spelled {
+		toStr, spellName = w.spell.str, w.spell.name
+		w.spell = nil
+	}
+	cls, bytesID, hexID := w.classify(toStr)
+	if cls == 0 && !bytes.Equal(common.HexToAddress(toStr).Bytes(), to.addr) {
+		w.out.Violate("harness: HexToAddress of a canonical hex spelling is not the address it spells")
+	}
+	rawTarget := w.rawStakingRecords(to.addr)
+	entriesBefore := w.entryTotals()
+	msg := &migratetypes.MsgMigrateAccount{From: fromAddr.String(), To: toStr, Signature: sig}
 	raw := w.exec(msg)
 	res := errKind(raw)
+	w.out.Count("migrate-spelling:" + spellName + "/" + mode + "=" + res)
 	w.out.Count("migrate:" + res)
 	w.out.Count("migrate-sig:" + mode)
 	for _, r := range roles {
@@ -1512,7 +1625,11 @@ func (w *world) migrate(fromID int, fromAddr sdk.AccAddress, to *actor, signer i
 	if fa := w.byID[fromID]; fa != nil && fa.vest != nil {
 		w.out.Count(fmt.Sprintf("migrate-vesting:kind=%d,locked=%v=%s", fa.vest.kind, !lockedBefore.IsZero(), res))
 	}
-	w.emit(fmt.Sprintf("migrate %d %d %d %s", fromID, to.id, signer, order), res)
+	if spelled {
+		w.emit(fmt.Sprintf("migratew %d %d %d %d %d %s", fromID, cls, bytesID, hexID, signer, order), res)
+	} else {
+		w.emit(fmt.Sprintf("migrate %d %d %d %s", fromID, to.id, signer, order), res)
+	}
 	if strings.HasPrefix(res, "err:other") || res == "panic" {
 		w.out.Violate("migrate: unexpected failure kind " + res)
 	}
@@ -1534,6 +1651,31 @@ func (w *world) migrate(fromID int, fromAddr sdk.AccAddress, to *actor, signer i
 	}
 	if role != "" {
 		w.out.Violate("reuse: migration accepted although an address took part in an earlier migration (" + role + ")")
+	}
+	// the address that received everything and is recorded as the target is the address whose key signed (source, that address)
+	if rec, found := w.s.App.MigrateKeeper.GetMigrateRecord(w.s.Ctx, fromAddr); !found {
+		w.out.Violate("record: no migration record of the source after an accepted migration")
+	} else {
+		recvd := common.HexToAddress(rec.To)
+		ok := false
+		if sigBz, err := hex.DecodeString(sig); err == nil {
+			if pub, err := crypto.SigToPub(crypto.Keccak256([]byte(migratetypes.MigrateAccountSignaturePrefix), fromAddr, recvd.Bytes()), sigBz); err == nil {
+				ok = crypto.PubkeyToAddress(*pub) == recvd
+			}
+		}
+		if !ok {
+			w.out.Violate("authorised: the address recorded as target of an accepted migration (target spelled as " + spellName +
+				") is not the address recovered from the signature over (source, that address): the portfolio went to an address that did not sign")
+		}
+		if !bytes.Equal(recvd.Bytes(), to.addr) {
+			w.out.Violate("authorised: the recorded target of an accepted migration is not the address the message spelled (" + spellName + ")")
+		}
+	}
+	if rawTarget != "" {
+		w.out.Violate("target: an accepted migration's target had a staking record of its own (raw scan: " + rawTarget + ")")
+	}
+	if e := w.entryTotals(); e != entriesBefore {
+		w.out.Violate("totals: number / balance of unbonding and redelegation entries changed by migration: " + entriesBefore + " -> " + e)
 	}
 	w.out.Nontrivial(fmt.Sprintf("migrate-ok:%d,%d,%d,%d", len(pf.bal), len(pf.dels), len(pf.ubds), len(pf.reds)))
 
@@ -1653,6 +1795,42 @@ func (w *world) migrate(fromID int, fromAddr sdk.AccAddress, to *actor, signer i
 	w.invariants("after migration")
 	w.consistency("after migration")
 	return res
+}
+
+// which of the delegation (0x31), unbonding-delegation (0x32), redelegation (0x34) prefixes hold a record keyed by the delegator
+func (w *world) rawStakingRecords(a sdk.AccAddress) string {
+	sk := w.s.App.GetKey(stakingtypes.StoreKey)
+	var out []string
+	for _, x := range []struct {
+		name string
+		pfx  []byte
+	}{{"0x31", stakingtypes.GetDelegationsKey(a)}, {"0x32", stakingtypes.GetUBDsKey(a)}, {"0x34", stakingtypes.GetREDsKey(a)}} {
+		if n := len(hx.RawPrefix(w.s.Ctx, sk, x.pfx)); n > 0 {
+			out = append(out, fmt.Sprintf("%s:%d", x.name, n))
+		}
+	}
+	return strings.Join(out, ",")
+}
+
+// number and total balance of all unbonding / redelegation entries in the store
+func (w *world) entryTotals() string {
+	sk := w.s.App.GetKey(stakingtypes.StoreKey)
+	cdc := w.s.App.AppCodec()
+	nu, nr := 0, 0
+	bu, br := sdkmath.ZeroInt(), sdkmath.ZeroInt()
+	for _, kv := range hx.RawPrefix(w.s.Ctx, sk, stakingtypes.UnbondingDelegationKey) {
+		for _, e := range stakingtypes.MustUnmarshalUBD(cdc, kv[1]).Entries {
+			nu++
+			bu = bu.Add(e.Balance)
+		}
+	}
+	for _, kv := range hx.RawPrefix(w.s.Ctx, sk, stakingtypes.RedelegationKey) {
+		for _, e := range stakingtypes.MustUnmarshalRED(cdc, kv[1]).Entries {
+			nr++
+			br = br.Add(e.InitialBalance)
+		}
+	}
+	return fmt.Sprintf("unbonding %d/%s redelegation %d/%s", nu, bu, nr, br)
 }
 
 // roleHistory names how the addresses of a requested migration took part in earlier accepted ones ("" = not at all)
@@ -1844,8 +2022,15 @@ func (w *world) randomOp() {
 	case r < 87:
 		w.opBlock(hx.Pick(w.rng, []int64{1, 1, 7, 50, 100, 100, 200, 299, 300}))
 	case r < 88:
-		w.opPeriods()
+		if w.rng.Intn(2) == 0 {
+			w.opPeriods()
+		} else {
+			w.opUnbondTime(hx.Pick(w.rng, []int64{30, 100, 300, 300}))
+		}
 	case r < 96:
+		if os.Getenv("VERIF_C14_GENESIS") == "1" && len(w.hist) > 0 && w.rng.Intn(3) == 0 {
+			w.opGenesisRoundTrip()
+		}
 		w.opMigrate()
 	default:
 		w.opChain()
@@ -1888,6 +2073,12 @@ func TestC14(t *testing.T) {
 			continue
 		case i == 7:
 			w.portfolioScenario(true)
+			continue
+		case i == 8:
+			w.spellingScenario()
+			continue
+		case i == 9 || i == 10:
+			w.singleKindScenario(i == 9)
 			continue
 		}
 		for j := 0; j < nOps; j++ {
@@ -2086,6 +2277,110 @@ func (w *world) portfolioScenario(solo bool) {
 	und(e1, 1, 5)
 	w.opBlock(100)
 	w.opBlock(300)
+	w.opBlock(1)
+}
+
+// spellingScenario: every spelling class of the target string, with a valid signature of the target key over (source, the
+// 20 bytes spelled) and without one; a pair of its own for every spelling that some reading of the code might accept
+func (w *world) spellingScenario() {
+	pair := 0
+	for k := 0; k < 10; k++ {
+		src, tgt := w.byID[1+pair%5], w.byID[11+pair%5]
+		sps := w.spellings(tgt.addr)
+		sp := sps[k]
+		for _, valid := range []bool{false, true} {
+			sp2 := sp
+			w.spell = &sp2
+			if valid {
+				res := w.migrate(src.id, src.addr, tgt, tgt.id, "ft", w.sign(tgt.eth, src.addr, tgt.addr), "ok")
+				if res == "ok" {
+					pair++
+				}
+			} else {
+				w.migrate(src.id, src.addr, tgt, 0, "ft", "", "none")
+			}
+		}
+		if k%3 == 2 {
+			w.opBlock(1)
+		}
+	}
+	w.opBlock(1)
+}
+
+// singleKindScenario: accounts that hold exactly one kind of staking record — only a delegation, only an unbonding
+// delegation, only a redelegation (as delegator; reached by redelegating everything, lowering the unbonding time through a
+// real MsgUpdateParams, undelegating the redelegated stake and letting that shorter unbonding mature first) — as target
+// (must be refused) or as source (everything moves); the other side holds a record of the same kind between the same validators
+func (w *world) singleKindScenario(asTarget bool) {
+	del := func(a *actor, vi int, units int64) {
+		n := w.amt(units)
+		res, rw := w.withReward(a, func() sdkmath.Int { return n }, func() string {
+			return w.exec(&stakingtypes.MsgDelegate{DelegatorAddress: a.addr.String(), ValidatorAddress: w.valStr(vi), Amount: w.coin(n)})
+		})
+		w.emit(fmt.Sprintf("delegate %d %d %s %s", a.id, 100+vi, n, rw), kind(res))
+	}
+	und := func(a *actor, vi int, units int64) {
+		n := w.amt(units)
+		res, rw := w.withReward(a, func() sdkmath.Int { return sdkmath.ZeroInt() }, func() string {
+			return w.exec(&stakingtypes.MsgUndelegate{DelegatorAddress: a.addr.String(), ValidatorAddress: w.valStr(vi), Amount: w.coin(n)})
+		})
+		w.emit(fmt.Sprintf("undelegate %d %d %s %s", a.id, 100+vi, n, rw), kind(res))
+	}
+	red := func(a *actor, vi, vj int, units int64) {
+		n := w.amt(units)
+		res, rw := w.withReward(a, func() sdkmath.Int { return sdkmath.ZeroInt() }, func() string {
+			return w.exec(&stakingtypes.MsgBeginRedelegate{DelegatorAddress: a.addr.String(), ValidatorSrcAddress: w.valStr(vi), ValidatorDstAddress: w.valStr(vj), Amount: w.coin(n)})
+		})
+		w.emit(fmt.Sprintf("redelegate %d %d %d %s %s 0", a.id, 100+vi, 100+vj, n, rw), kind(res))
+	}
+	// the three accounts that will hold a single kind of record: x[0] only a delegation, x[1] only an unbonding delegation,
+	// x[2] only a redelegation; y[k] is the other side of the migration with x[k]
+	var x, y [3]*actor
+	for k := 0; k < 3; k++ {
+		if asTarget {
+			x[k], y[k] = w.byID[11+k], w.byID[1+k]
+		} else {
+			x[k], y[k] = w.byID[1+k], w.byID[11+k]
+		}
+	}
+	del(x[0], 0, 40)
+	del(x[1], 0, 50)
+	del(x[2], 0, 60)
+	w.opBlock(3)
+	red(x[2], 0, 1, 60) // everything: no delegation left with validator 0, a delegation with validator 1
+	und(x[1], 0, 50) // everything, at the usual unbonding time: only an unbonding delegation is left
+	w.opBlock(2)
+	w.opUnbondTime(30)
+	und(x[2], 1, 60) // the redelegated stake, unbonding in 30 s
+	w.opBlock(20)
+	w.opBlock(20)
+	w.opBlock(1) // the short unbonding has matured; the redelegation and the other unbonding (300 s) have not
+	w.opUnbondTime(unbondSecs)
+	if asTarget {
+		// the sources hold a record of the same kind, between the same validators
+		del(y[0], 0, 10)
+		del(y[1], 0, 20)
+		und(y[1], 0, 5)
+		del(y[2], 0, 30)
+		red(y[2], 0, 1, 12)
+		w.opBlock(1)
+	}
+	for k := 0; k < 3; k++ {
+		from, to := x[k], y[k]
+		if asTarget {
+			from, to = y[k], x[k]
+		}
+		kindName := []string{"only-delegation", "only-unbonding", "only-redelegation"}[k]
+		who := "source"
+		if asTarget {
+			who = "target"
+		}
+		w.out.Count("single-kind:" + who + "-" + kindName + ":records=" + w.rawStakingRecords(x[k].addr))
+		res := w.migrate(from.id, from.addr, to, to.id, "ft", w.sign(to.eth, from.addr, to.addr), "ok")
+		w.out.Count("single-kind:" + who + "-" + kindName + "=" + res)
+	}
+	w.opBlock(200)
+	w.opBlock(100)
 	w.opBlock(1)
 }
 
